@@ -75,6 +75,16 @@ SEEDS = {
  "s6-C12f": ("C12", ["C12", "C11"], "a schema-level 'definitions' keyword with two or more entries: range variable shared (go 1.20 semantics), every SchemaRef of the map points to the last one"),
  "s6-C18f": ("C18", ["C18"], "a path item carrying both a $ref and inline operations whose ids collide: skipped by pathItemOps"),
  "s6-C19f": ("C19", ["C19"], "responses that are $refs to other files by relative path or file:// URL (HasURLPathOnly): get a description next to the $ref"),
+ "s7-C02g": ("C02", ["C02", "C01"], "a colliding ($ref-free, case-insensitively) import referred to from a direct sub-schema of a root definition that is itself the target of an anonymous pointer, and no other pointer to an inline schema: reload after namePointers skipped, stripOAIGen misses a referrer"),
+ "s7-C05g": ("C05", ["C05", "C06", "C01"], "Expand + RemoveUnused + an unused definition whose name is a proper prefix of a remaining remote recursive definition that is the only holder of a $ref to a third definition"),
+ "s7-C10g": ("C10", ["C10"], "RemoveUnused + a shared parameter (or shared-response header) of type array whose items carry a pattern: reset() forgets one index, stale entry survives only when that index shrinks"),
+ "s7-C11g": ("C11", ["C11", "C12"], "sibling names 'a/b' and literal 'a~1b' (or names with '~' and no '/'): keys escaped only when the name contains '/'"),
+ "s7-C13g": ("C13", ["C13"], "a shared response with headers (patterns/enums) and no schema: guard clause skips the header loop"),
+ "s7-C14g": ("C14", ["C14"], "two operation ids equal up to letter case ('listItems' / 'ListItems'), or a lookup of an undeclared id differing by case only"),
+ "s7-C15g": ("C15", ["C15"], "a parameter $ref resolving to a non-parameter + a Safe variant whose callback inspects its spec.Parameter argument (zeroed by a failed type assertion)"),
+ "s7-C16g": ("C16", ["C16"], "a consumes/produces list containing the same media type twice: in-place compaction writes into the document (and races on first concurrent calls)"),
+ "s7-C17g": ("C17", ["C17"], "a value listed twice inside one mixin's consumes list and not yet known to the primary"),
+ "s7-C20g": ("C20", ["C20", "C03"], "multi-typed schemas mentioning 'null' ([object, null] with properties, through $ref chains, as array items)"),
 }
 only = set(sys.argv[1:])
 res_path = os.path.join(HERE, "seeded", "results.json")
